@@ -126,7 +126,7 @@ def _maybe_open(path_or_file: Pathish | IO, mode: str) -> Generator[IO, None, No
     If given an open file handle, the handle is returned as-is.
     The file is not closed when the context manager closes.
     """
-    if isinstance(path_or_file, IO):
+    if hasattr(path_or_file, 'write'):
         yield path_or_file
     else:
         with open(path_or_file, mode) as f:
